@@ -73,8 +73,13 @@ def ns_scenario(seed, n, profile="swarm"):
     elif pc < 0.22 and profile != "noclustering" and nlive >= 20:
         # faiss k-means needs at least 16 training points
         kwargs["flow_proposal_class"] = "ClusteringFlowProposal"
+    if pc >= 0.22 and pc < 0.32 and mk >= 0.62:
+        # gravitational-wave proposals with their default reparameterisations (no optional dependency needed)
+        kwargs["flow_proposal_class"] = r.choice(["GWFlowProposal", "GWFlowProposal", "AugmentedGWFlowProposal"])
+        model = {"name": "gauss_gw", "dims": r.choice([3, 4, 5])}
+        kwargs.pop("analytic_priors", None)
     lp = r.choice(LATENT + ["truncated_gaussian"] * 3)
-    if kwargs.get("flow_proposal_class") == "AugmentedFlowProposal":
+    if kwargs.get("flow_proposal_class") in ("AugmentedFlowProposal", "AugmentedGWFlowProposal"):
         lp = "truncated_gaussian"
     kwargs["latent_prior"] = lp
     if lp in ("gaussian", "uniform", "flow"):
@@ -97,6 +102,8 @@ def ns_scenario(seed, n, profile="swarm"):
     # reparameterisations
     rp = r.random()
     names = [f"x{i}" for i in range(model.get("dims", 2))]
+    if model["name"] == "gauss_gw":
+        rp = 1.0
     if rp < 0.2:
         kwargs["reparameterisations"] = {names[0]: "default", names[1]: "z-score"}
     elif rp < 0.3:
@@ -109,7 +116,7 @@ def ns_scenario(seed, n, profile="swarm"):
         kwargs["reparameterisations"] = {"null": {"parameters": names}}
     elif rp < 0.6:
         kwargs["fallback_reparameterisation"] = r.choice(["rescaletobounds", None, "zscore"])
-    if kwargs.get("flow_proposal_class") == "AugmentedFlowProposal":
+    if kwargs.get("flow_proposal_class") in ("AugmentedFlowProposal", "AugmentedGWFlowProposal"):
         # the augmented proposal needs a mask: coupling flows only
         kwargs["flow_config"] = tiny_flow(r, ("realnvp",))
     else:
